@@ -5,6 +5,8 @@
 -/
 import PjVerif.Lemmas.GraphEffLemmas
 import PjVerif.Lemmas.TaskSrcD
+import PjVerif.Lemmas.WbsSrcC
+import PjVerif.Lemmas.FacadeSrcD
 namespace Pj
 
 /-- two states agree on every field of every object -/
@@ -106,5 +108,115 @@ theorem C16_source_set_children (s : G) (st : PyLite.PState) (hh : st.heap = Tas
     (l : List Uid) (hv : TaskSrc.ValueOf v l) (F : Nat) (hF : s.n + 6 ≤ F) (hrec : (setChildren s h l).2 ≠ some (.crash .recursion)) :
     TaskSrc.interpSetChildren F h v st = TaskSrc.setterResult st (setChildren s h l) :=
   TaskSrc.interpSetChildren_eq s st hh h v l hv F hF hrec
+
+/-! ### the tie of `WBS` (wbs.py) to the current source, by translation (tools/extract_wbs.py → Extracted/WbsSrc.lean, Lemmas/WbsSrc*.lean);
+    the program of wbs.py is layered over the program of task.py: a call into task.py runs the translated setters of Lemmas/TaskSrc*.lean -/
+
+/-- the translated `WBS.remove` (with its recursive `__remove` and `_ChildrenList.remove`) is the model's `wbsRemove`, for every state;
+    `wbsRemoveResult_state`: state and error are those of `wbsRemove`, the returned flag is the one of `removeRec` -/
+theorem C16_source_remove (s : G) (st : PyLite.PState) (hh : st.heap = TaskSrc.encHeap s) (w t : Uid) (F : Nat)
+    (hF : 2 * s.n + 12 ≤ F) (hrec : (wbsRemove s w t).2 ≠ some (.crash .recursion)) :
+    WbsSrc.interpRemove F w (.atom (.ref t)) st = WbsSrc.wbsRemoveResult st s w t :=
+  WbsSrc.interpRemove_eq s st hh w t F hF hrec
+
+/-- the translated `WBS.remove_all` removes, one after the other, the tasks its filter selected (the filter evaluation
+    `self.tasks(key, **kwargs)` is an oracle `filt`: C18 is about it) and returns them -/
+theorem C16_source_remove_all (filt : List PyLite.Atom → PyLite.PState → List Uid) (s : G) (st : PyLite.PState)
+    (hh : st.heap = TaskSrc.encHeap s) (w : Uid) (key kw : PyLite.Atom) (F : Nat) (hF : 2 * s.n + 12 ≤ F)
+    (hrec : (forEach (fun s t => wbsRemove s w t) s (filt [.ref w, key, kw] st)).2 ≠ some (.crash .recursion)) :
+    WbsSrc.interpRemoveAll filt F w key kw st =
+      WbsSrc.resultV st (TaskSrc.refs (filt [.ref w, key, kw] st)) (forEach (fun s t => wbsRemove s w t) s (filt [.ref w, key, kw] st)) :=
+  WbsSrc.interpRemoveAll_eq filt s st hh w key kw F hF hrec
+
+/-- the translated `roots` setter and `WBS.__floordiv__` are the children setter / `floordiv` on the hidden root -/
+theorem C16_source_roots_set (s : G) (st : PyLite.PState) (hh : st.heap = TaskSrc.encHeap s) (w : Uid) (v : PyLite.Val) (l : List Uid)
+    (hv : TaskSrc.ValueOf v l) (F : Nat) (hF : s.n + 7 ≤ F) (hrec : (setChildren s w l).2 ≠ some (.crash .recursion)) :
+    WbsSrc.interpRootsSet F w v st = TaskSrc.setterResult st (setChildren s w l) :=
+  WbsSrc.interpRootsSet_eq s st hh w v l hv F hF hrec
+
+theorem C16_source_wbs_floordiv (s : G) (st : PyLite.PState) (hh : st.heap = TaskSrc.encHeap s) (w : Uid) (v : PyLite.Val) (l : List Uid)
+    (hv : TaskSrc.ValueOf v l) (F : Nat) (hF : s.n + 8 ≤ F) (hrec : (floordiv s w l).2 ≠ some (.crash .recursion)) :
+    WbsSrc.interpFloordiv F w v st = WbsSrc.resultV st v (floordiv s w l) :=
+  WbsSrc.interpFloordiv_eq s st hh w v l hv F hF hrec
+
+/-! ### the tie of the list façades of task.py (`_ChildrenList`, `_PredecessorsList`, `_SuccessorsList`, the operators, the list-level
+    operations) to the current source, by translation (tools/extract_facade.py → Extracted/FacadeSrc.lean, Lemmas/FacadeSrc*.lean): 17 further
+    functions of the program of task.py; the setter theorems of Lemmas/TaskSrc*.lean lift to the extended program by `progH_mono` -/
+
+/-- `h.children.append(t)` / `.remove(t)` / `.insert(i, t)` (a façade taken from the current state) are the model's `chAppend` / `chRemove` /
+    `chInsert` (`pyInsert`: Python's negative and out-of-range indexes) -/
+theorem C16_source_children_append (s : G) (st : PyLite.PState) (hh : st.heap = TaskSrc.encHeap s) (h t : Uid) (F : Nat) (hF : s.n + 5 ≤ F)
+    (hrec : (chAppend s h t).2 ≠ some (.crash .recursion)) :
+    FacadeSrc.interpChAppend F h t st = FacadeSrc.opResult st (.atom .none) (chAppend s h t) :=
+  FacadeSrc.interpChAppend_eq s st hh h t F hF hrec
+
+theorem C16_source_children_remove (s : G) (st : PyLite.PState) (hh : st.heap = TaskSrc.encHeap s) (h t : Uid) (F : Nat) (hF : s.n + 7 ≤ F)
+    (hrec : (chRemove s h t).2 ≠ some (.crash .recursion)) :
+    FacadeSrc.interpChRemove F h t st = FacadeSrc.opResult st (.atom (.bool ((s.children h).contains t))) (chRemove s h t) :=
+  FacadeSrc.interpChRemove_eq s st hh h t F hF hrec
+
+theorem C16_source_children_insert (s : G) (st : PyLite.PState) (hh : st.heap = TaskSrc.encHeap s) (h : Uid) (i : Int) (t : Uid) (F : Nat)
+    (hF : s.n + 7 ≤ F) (hrec : (chInsert s h i t).2 ≠ some (.crash .recursion)) :
+    FacadeSrc.interpChInsert F h i t st = FacadeSrc.opResult st (.atom .none) (chInsert s h i t) :=
+  FacadeSrc.interpChInsert_eq s st hh h i t F hF hrec
+
+/-- `h.children.move(v, before=b, after=a)` is the model's `chMove` (`moveOne`), `h.children.reorder(ids)` the model's `chReorder`
+    (`reorderLoop`: StopIteration for an unknown id, ValueError for a repeated one) - for every state, no proviso -/
+theorem C16_source_children_move (s : G) (st : PyLite.PState) (hh : st.heap = TaskSrc.encHeap s) (h : Uid) (v : PyLite.Val) (ts : List Uid)
+    (hv : TaskSrc.ValueOf v ts) (b a : Option Uid) (F : Nat) (hF : 3 ≤ F) :
+    FacadeSrc.interpChMove F h v b a st = FacadeSrc.opResult st (.atom .none) (chMove s h ts b a) :=
+  FacadeSrc.interpChMove_eq s st hh h v ts hv b a F hF
+
+theorem C16_source_children_reorder (s : G) (st : PyLite.PState) (hh : st.heap = TaskSrc.encHeap s) (h : Uid) (ids : List Int) (F : Nat)
+    (hF : 2 ≤ F) :
+    FacadeSrc.interpChReorder F h ids st = FacadeSrc.opResult st (.atom .none) (chReorder s h ids) :=
+  FacadeSrc.interpChReorder_eq s st hh h ids F hF
+
+/-- `h.children.sort(key, reverse)` with a `str` key is the model's `chSort` (`sortBy`), for EVERY meaning `L` of `__getattribute__`
+    under which the attribute values of the children are ordered as the model's integer keys (Python's stable `sorted` is a primitive,
+    proved equal to the model's merge sort: `insSort_eq_mergeSort`) -/
+theorem C16_source_children_sort (L : FacadeSrc.Lib) (s : G) (st : PyLite.PState) (hh : st.heap = TaskSrc.encHeap s) (h : Uid) (k : Nat)
+    (rev : Bool) (key : Uid → Int) (val : Uid → PyLite.Atom) (F : Nat) (hF : 2 ≤ F)
+    (hval : ∀ u ∈ s.children h, L "__getattribute__" [.ref u, .str k] = .ok (val u))
+    (hord : ∀ u ∈ s.children h, ∀ v ∈ s.children h, PyLite.keyLe (val u) (val v) = some (decide (key u ≤ key v))) :
+    FacadeSrc.interpChSort L F h (.atom (.str k)) rev st = FacadeSrc.opResult st (.atom .none) (chSort s h key rev) :=
+  FacadeSrc.interpChSort_str_eq L s st hh h k rev key val F hF hval hord
+
+/-- `t.predecessors.append(x)` / `.remove(x)` and the successor twins are the model's `prAppend` / `prRemove` / `suAppend` / `suRemove` -/
+theorem C16_source_predecessors_append (s : G) (st : PyLite.PState) (hh : st.heap = TaskSrc.encHeap s) (t x : Uid) (F : Nat) (hF : s.n + 5 ≤ F)
+    (hrec : (prAppend s t x).2 ≠ some (.crash .recursion)) :
+    FacadeSrc.interpPrAppend F t x st = FacadeSrc.opResult st (.atom .none) (prAppend s t x) :=
+  FacadeSrc.interpPrAppend_eq s st hh t x F hF hrec
+
+theorem C16_source_predecessors_remove (s : G) (st : PyLite.PState) (hh : st.heap = TaskSrc.encHeap s) (t x : Uid) (F : Nat) (hF : s.n + 5 ≤ F)
+    (hrec : (prRemove s t x).2 ≠ some (.crash .recursion)) :
+    FacadeSrc.interpPrRemove F t x st = FacadeSrc.opResult st (.atom (.bool ((s.preds t).contains x))) (prRemove s t x) :=
+  FacadeSrc.interpPrRemove_eq s st hh t x F hF hrec
+
+theorem C16_source_successors_append (s : G) (st : PyLite.PState) (hh : st.heap = TaskSrc.encHeap s) (t x : Uid) (F : Nat) (hF : s.n + 5 ≤ F)
+    (hrec : (suAppend s t x).2 ≠ some (.crash .recursion)) :
+    FacadeSrc.interpSuAppend F t x st = FacadeSrc.opResult st (.atom .none) (suAppend s t x) :=
+  FacadeSrc.interpSuAppend_eq s st hh t x F hF hrec
+
+theorem C16_source_successors_remove (s : G) (st : PyLite.PState) (hh : st.heap = TaskSrc.encHeap s) (t x : Uid) (F : Nat) (hF : s.n + 5 ≤ F)
+    (hrec : (suRemove s t x).2 ≠ some (.crash .recursion)) :
+    FacadeSrc.interpSuRemove F t x st = FacadeSrc.opResult st (.atom (.bool ((s.succs t).contains x))) (suRemove s t x) :=
+  FacadeSrc.interpSuRemove_eq s st hh t x F hF hrec
+
+/-- the operators `h // v`, `t << v`, `t >> v` are the model's `floordiv` / `lshift` / `rshift` and return their right operand -/
+theorem C16_source_floordiv (s : G) (st : PyLite.PState) (hh : st.heap = TaskSrc.encHeap s) (h : Uid) (v : PyLite.Val) (l : List Uid)
+    (hv : TaskSrc.ValueOf v l) (F : Nat) (hF : s.n + 7 ≤ F) (hrec : (floordiv s h l).2 ≠ some (.crash .recursion)) :
+    FacadeSrc.interpFloordiv F h v st = FacadeSrc.opResult st v (floordiv s h l) :=
+  FacadeSrc.interpFloordiv_eq s st hh h v l hv F hF hrec
+
+theorem C16_source_lshift (s : G) (st : PyLite.PState) (hh : st.heap = TaskSrc.encHeap s) (t : Uid) (v : PyLite.Val) (l : List Uid)
+    (hv : TaskSrc.ValueOf v l) (F : Nat) (hF : s.n + 5 ≤ F) (hrec : (lshift s t l).2 ≠ some (.crash .recursion)) :
+    FacadeSrc.interpLshift F t v st = FacadeSrc.opResult st v (lshift s t l) :=
+  FacadeSrc.interpLshift_eq s st hh t v l hv F hF hrec
+
+theorem C16_source_rshift (s : G) (st : PyLite.PState) (hh : st.heap = TaskSrc.encHeap s) (t : Uid) (v : PyLite.Val) (l : List Uid)
+    (hv : TaskSrc.ValueOf v l) (F : Nat) (hF : s.n + 5 ≤ F) (hrec : (rshift s t l).2 ≠ some (.crash .recursion)) :
+    FacadeSrc.interpRshift F t v st = FacadeSrc.opResult st v (rshift s t l) :=
+  FacadeSrc.interpRshift_eq s st hh t v l hv F hF hrec
 
 end Pj
